@@ -49,6 +49,25 @@ struct Ctx<'a> {
     jprefix: Vec<u8>,
     want01: bool,
     want02: bool,
+    /// set while a scale case is being judged: the input is recorded by this label instead of its bytes
+    scale_label: Option<String>,
+}
+
+/// Re-create the bytes of a scale case from its label: `<base label>[|cut=K][|set=AT:HEX]...`
+fn materialize(d: &Desc, label: &str) -> Option<Vec<u8>> {
+    let mut parts = label.split('|');
+    let mut bytes = scale_case_by_label(d, parts.next()?)?.bytes;
+    for p in parts {
+        if let Some(k) = p.strip_prefix("cut=") {
+            bytes.truncate(k.parse().ok()?);
+        } else if let Some(x) = p.strip_prefix("set=") {
+            let (at, h) = x.split_once(':')?;
+            let at: usize = at.parse().ok()?;
+            let b = unhex(h);
+            bytes[at..at + b.len()].copy_from_slice(&b);
+        }
+    }
+    Some(bytes)
 }
 
 fn kind_name(e: &Error) -> &'static str {
@@ -67,6 +86,10 @@ fn panic_site(p: &str) -> String {
 }
 
 fn jcase(ctx: &Ctx, off: usize, bytes: &[u8]) {
+    if let Some(l) = &ctx.scale_label {
+        journal(format!("decode-scale {} {} {}", ctx.id, off, l).as_bytes());
+        return;
+    }
     let mut buf = [0u8; 700];
     let mut n = ctx.jprefix.len().min(300);
     buf[..n].copy_from_slice(&ctx.jprefix[..n]);
@@ -89,7 +112,12 @@ fn check_input(ctx: &mut Ctx, a01: &mut PropAcc, a02: &mut PropAcc, bytes: &[u8]
     let id = ctx.id;
     let fam = ctx.fam;
     jcase(ctx, off, bytes);
-    let replay = || json!({"engine": "decode", "shape": id, "off": off, "bytes": hex(bytes), "origin": origin});
+    let scale_label = ctx.scale_label.clone();
+    let replay = || match &scale_label {
+        Some(l) if bytes.len() > 2048 => json!({"engine": "decode", "shape": id, "off": off, "scale_label": l, "origin": origin}),
+        Some(l) => json!({"engine": "decode", "shape": id, "off": off, "bytes": hex(bytes), "scale_label": l, "origin": origin}),
+        None => json!({"engine": "decode", "shape": id, "off": off, "bytes": hex(bytes), "origin": origin}),
+    };
     let mut slot = ctx.arena.place(bytes.len(), off, 0);
     slot.bytes_mut().copy_from_slice(bytes);
     let addr = slot.addr();
@@ -288,6 +316,7 @@ impl Engine for Decode {
             jprefix: format!("decode {} ", id).into_bytes(),
             want01: args.wants("C01"),
             want02: args.wants("C02"),
+            scale_label: None,
         };
         let fam = family(id);
         let (mut a01, mut a02, mut a06, mut a19) = (PropAcc::default(), PropAcc::default(), PropAcc::default(), PropAcc::default());
@@ -387,6 +416,64 @@ impl Engine for Decode {
             }
         }
 
+        // ------------------------------------------------------------ (iii) beyond the small scope
+        // small values in buffers of 100 .. 520 (T: .. 70 000) bytes, container sizes 17 .. 300 (T: .. 70 000) in exact
+        // and roomy buffers, constant fills; for the big values also cuts and header mutations
+        let big = scale_cases(&d, thorough);
+        if ctx.want01 || ctx.want02 {
+            let maxb = big.iter().map(|c| c.bytes.len()).max().unwrap_or(0);
+            ctx.arena = Arena::new(maxb + 64);
+            let mut n_cases = 0u64;
+            for c in &big {
+                ctx.scale_label = Some(c.label.clone());
+                let r = check_input(&mut ctx, &mut a01, &mut a02, &c.bytes, 0, "scale");
+                n_cases += 1;
+                if let (Some(v), Some(Ok(o)), true) = (&c.value, &r, ctx.want02) {
+                    if &o.value != v {
+                        a02.violate(format!("decode/root_content/{}", fam), format!("{} scale case {} reads back a different value (size {})", id, c.label, o.size), json!({"engine": "decode", "shape": id, "off": 0, "scale_label": c.label}));
+                    }
+                }
+                if align > 1 && c.bytes.len() % 64 == 0 {
+                    check_input(&mut ctx, &mut a01, &mut a02, &c.bytes, 1, "scale_misaligned");
+                }
+                if !c.label.starts_with("scaled:") {
+                    continue;
+                }
+                // cuts of the big image
+                let ext = c.extent;
+                let mut cuts = vec![ext.saturating_sub(1), ext.saturating_sub(align), ext / 2, d.min_size(), d.min_size() + align];
+                cuts.retain(|k| *k < c.bytes.len());
+                cuts.sort();
+                cuts.dedup();
+                for k in cuts {
+                    ctx.scale_label = Some(format!("{}|cut={}", c.label, k));
+                    check_input(&mut ctx, &mut a01, &mut a02, &c.bytes[..k], 0, "scale_cut");
+                    n_cases += 1;
+                }
+                // header mutations: the first and the last few header fields
+                if let Ok((_, fields)) = decode_tree(&d, &c.bytes) {
+                    let nf = fields.len();
+                    let mut work = c.bytes.clone();
+                    for (fi, f) in fields.iter().enumerate() {
+                        if fi >= 4 && fi + 3 < nf {
+                            continue;
+                        }
+                        for mv in mutations(f, align) {
+                            apply_mut(&mut work, f, mv);
+                            ctx.scale_label = Some(format!("{}|set={}:{}", c.label, f.at, hex(&work[f.at..f.at + f.size])));
+                            check_input(&mut ctx, &mut a01, &mut a02, &work, 0, "scale_mutation");
+                            n_cases += 1;
+                            work[f.at..f.at + f.size].copy_from_slice(&c.bytes[f.at..f.at + f.size]);
+                        }
+                    }
+                }
+            }
+            ctx.scale_label = None;
+            a01.count("scale_cases", n_cases);
+            a02.count("scale_cases", n_cases);
+            a01.distinct.insert(format!("{}:scale:{}", id, big.len()));
+        }
+
         // ------------------------------------------------------------ C06: framing contract
         if args.wants("C06") && min > 0 {
             let mut sfx: Vec<Vec<u8>> = vec![];
@@ -404,15 +491,34 @@ impl Engine for Decode {
                 }
             }
             let msgs: Vec<Vec<u8>> = roots.iter().map(|(_, _, img, ext, _)| img[..*ext].to_vec()).collect();
-            for (v, zt, img, ext, mask) in &roots {
+            // big messages (exact images of the scale ladder) obey the same contract; their cuts are sampled
+            let mut c06_roots: Vec<(Value, bool, Vec<u8>, usize, Vec<bool>, Option<String>)> = roots.iter().map(|(v, zt, img, ext, mask)| (v.clone(), *zt, img.clone(), *ext, mask.clone(), None)).collect();
+            for c in &big {
+                if c.label.starts_with("scaled:") && c.label.ends_with(":slack=0") {
+                    c06_roots.push((c.value.clone().unwrap(), false, c.bytes.clone(), c.extent, c.mask.clone(), Some(c.label.clone())));
+                }
+            }
+            for (v, zt, img, ext, mask, big_label) in &c06_roots {
                 let m = &img[..*ext];
                 let mut arena = Arena::new(m.len() * 2 + 64);
                 let replay = |b: &[u8]| json!({"engine": "decode", "shape": id, "off": 0, "bytes": hex(b), "origin": "framing"});
-                for k in 0..*ext {
+                let cuts: Vec<usize> = if big_label.is_none() {
+                    (0..*ext).collect()
+                } else {
+                    let mut c = vec![0, 1, min.saturating_sub(1), min, min + 1, min + align, *ext / 2, ext.saturating_sub(2 * align), ext.saturating_sub(align + 1), ext.saturating_sub(align), ext.saturating_sub(1)];
+                    c.retain(|k| k < ext);
+                    c.sort();
+                    c.dedup();
+                    c
+                };
+                for k in cuts {
                     a06.evaluations += 1;
                     let mut slot = arena.place(k, 0, 0);
                     slot.bytes_mut().copy_from_slice(&m[..k]);
-                    journal(format!("decode {} 00 {}", id, hex(&m[..k])).as_bytes());
+                    match big_label {
+                        Some(l) => journal(format!("decode-scale {} 0 {}|cut={}", id, l, k).as_bytes()),
+                        None => journal(format!("decode {} 00 {}", id, hex(&m[..k])).as_bytes()),
+                    }
                     let r = catch(|| s.from_bytes(slot.bytes()).map(|x| (x.value.0, x.size)));
                     match r {
                         Err(p) => a06.violate(format!("framing/panic/{}/{}", fam, panic_site(&p)), format!("{} prefix {} of {:?}: panic {}", id, k, v, p), replay(&m[..k])),
@@ -439,7 +545,10 @@ impl Engine for Decode {
                     b.extend_from_slice(tail);
                     let mut slot = arena.place(b.len(), 0, 0);
                     slot.bytes_mut().copy_from_slice(&b);
-                    journal(format!("decode {} 00 {}", id, hex(&b)).as_bytes());
+                    match big_label {
+                        Some(l) => journal(format!("decode-scale-ext {} 0 {} +{}", id, l, hex(tail)).as_bytes()),
+                        None => journal(format!("decode {} 00 {}", id, hex(&b)).as_bytes()),
+                    }
                     let r = catch(|| s.from_bytes(slot.bytes()).map(|x| (x.value.0, x.size)));
                     match r {
                         Err(p) => a06.violate(format!("framing/panic/{}/{}", fam, panic_site(&p)), format!("{} {:?} + suffix {}: panic {}", id, v, hex(tail), p), replay(&b)),
@@ -544,13 +653,22 @@ impl Engine for Decode {
     fn replay(&self, s: &'static dyn ShapeDyn, case: &serde_json::Value) -> bool {
         let id = s.id();
         let d = s.desc();
-        let bytes = unhex(case["bytes"].as_str().unwrap());
+        let bytes = match case["bytes"].as_str() {
+            Some(h) => unhex(h),
+            None => match materialize(&d, case["scale_label"].as_str().unwrap_or("")) {
+                Some(b) => b,
+                None => {
+                    println!("replay: unknown scale case {:?}", case["scale_label"]);
+                    return false;
+                }
+            },
+        };
         let off = case["off"].as_u64().unwrap_or(0) as usize;
-        let mut ctx = Ctx { s, id, fam: family(id), d: d.clone(), align: d.align(), arena: Arena::new(bytes.len() + 64), jprefix: b"replay ".to_vec(), want01: true, want02: true };
+        let mut ctx = Ctx { s, id, fam: family(id), d: d.clone(), align: d.align(), arena: Arena::new(bytes.len() + 64), jprefix: b"replay ".to_vec(), want01: true, want02: true, scale_label: None };
         let (mut a01, mut a02) = (PropAcc::default(), PropAcc::default());
         let lib = check_input(&mut ctx, &mut a01, &mut a02, &bytes, off, "replay");
         println!("shape   : {}", id);
-        println!("bytes   : {} (len {}, address offset {})", hex(&bytes), bytes.len(), off);
+        println!("bytes   : {} (len {}, address offset {})", if bytes.len() <= 600 { hex(&bytes) } else { format!("{}...", hex(&bytes[..64])) }, bytes.len(), off);
         println!("library : {:?}", lib);
         println!("reference decode: {:?}", decode(&d, &bytes));
         let mut bad = false;
